@@ -295,13 +295,15 @@ def rule_epoch_writers(ctx):
             continue
         if name.startswith(AE):
             continue
+        if name in prog.auto_inline():
+            continue      # a helper introduced by refactoring: judged inlined in its single caller
         r.functions.add(name)
         seen = set()
         for p in ctx.ex.paths(b):
             for (i, e, op, cell, base) in epoch_ops(p):
-                if op == "load" or (e.bb, cell) in seen:
+                if op == "load" or (e.bb, e.frame, cell) in seen:
                     continue
-                seen.add((e.bb, cell))
+                seen.add((e.bb, e.frame, cell))
                 nw += 1
                 if cell == "Global.epoch":
                     ok = name == TRY_ADVANCE
@@ -397,7 +399,7 @@ def rule_expiry(ctx):
                   "previous epoch still runs" % k, ie.loc(0))
     # consumers of the queue
     tpi = prog.callers_of("ebr_impl::sync::queue::Queue::<T>::try_pop_if")
-    ok = [b.name for (b, _, _, _) in tpi] == [COLLECT]
+    ok = [prog.home(b.name) for (b, _, _, _) in tpi] == [COLLECT]
     r.instance("try_pop_if called only from collect", ok)
     if not ok:
         r.violate("ebr_impl::sync::queue::Queue::<T>::try_pop_if", "callers", "called from %s" % [b.name for (b, _, _, _) in tpi])
@@ -421,7 +423,7 @@ def rule_expiry(ctx):
             r.violate(COLLECT, "predicate", "bags are popped under a predicate that is not is_expired(current global epoch)",
                       b.loc(bi))
     tp = prog.callers_of("ebr_impl::sync::queue::Queue::<T>::try_pop")
-    names = sorted({b.name for (b, _, _, _) in tp})
+    names = sorted({prog.home(b.name) for (b, _, _, _) in tp})
     ok = names == ["<ebr_impl::sync::queue::Queue<T> as std::ops::Drop>::drop"]
     r.instance("unconditional try_pop called only from Queue::drop", ok)
     if not ok:
@@ -469,7 +471,7 @@ def rule_collect_outermost(ctx):
                    "run only from Bag::drop; mid-collection re-pins only inside that region")
     prog = ctx.prog
     cc = prog.callers_of(COLLECT)
-    names = sorted({b.name for (b, _, _, _) in cc})
+    names = sorted({prog.home(b.name) for (b, _, _, _) in cc})
     ok = names == [UNPIN]
     r.instance("collect called only from unpin", ok)
     if not ok:
@@ -519,7 +521,7 @@ def rule_collect_outermost(ctx):
                 r.violate(UNPIN, "collecting", "unpin returns with `collecting` still set")
     # Deferred::call only from Bag::drop
     dc = prog.callers_of("ebr_impl::deferred::Deferred::call")
-    names = sorted({x.name for (x, _, _, _) in dc})
+    names = sorted({prog.home(x.name) for (x, _, _, _) in dc})
     ok = names == ["<ebr_impl::internal::Bag as std::ops::Drop>::drop"]
     r.instance("Deferred::call only from Bag::drop", ok)
     if not ok:
@@ -527,18 +529,19 @@ def rule_collect_outermost(ctx):
     # repin_without_collect callers
     rc = prog.callers_of(REPIN_NC)
     for (x, bi, t, c) in rc:
-        if x.name == UNPIN:
+        hx = prog.home(x.name)
+        if hx == UNPIN:
             ok = True
             why = "inside the collecting loop of unpin"
-        elif x.name == P + "Local::schedule_collection":
+        elif hx == P + "Local::schedule_collection":
             ok = False
-            for p in ctx.ex.paths(x):
+            for p in ctx.ex.paths(prog.body(hx)):
                 calls = [i for i, e in enumerate(p.events) if e.kind == "call" and e.target == REPIN_NC]
                 if calls:
                     ok = any(e.kind == "cond" and _cell_get(e.term, "Local.collecting") and e.value == 1
                              for e in p.events[:calls[0]])
             why = "only while collecting"
-        elif x.name == "utils::dispose_general_node":
+        elif hx == "utils::dispose_general_node":
             ok = True
             why = "dispose runs only inside deferred functions (CW-DEFERRED-ONLY), i.e. inside collect"
         else:
@@ -590,6 +593,10 @@ def rule_guard_count(ctx):
         if ok:
             v = sets[0].args[1]
             ok = isinstance(v, tuple) and v[0] == "bin" and v[1] == "Sub" and _cell_get(v[2], "Local.guard_count") and const_of(v[3]) == 1
+            if not ok and const_of(v) is not None:
+                # `set(c)` on a path that knows guard_count == c + 1
+                ok = any(_cmp_cell(e, "Local.guard_count", "Eq", const_of(v) + 1) and e.value == 1 and not e.exp
+                         for e in p.events[:p.events.index(sets[0])])
         r.instance("unpin: guard_count -= 1", ok)
         if not ok:
             r.violate(UNPIN, "count", "a path of unpin does not decrement guard_count exactly once", b.loc(0))
@@ -621,8 +628,8 @@ def rule_guard_count(ctx):
             for st in b.blocks[bi]["stmts"]:
                 if st["k"] == "assign" and st["rv"]["k"] == "aggregate" and st["rv"].get("adt") == "ebr_impl::guard::Guard":
                     n += 1
-                    ok = name in (PIN, UNPIN, UNPROTECTED)
-                    r.instance("Guard literal in %s" % name, ok)
+                    ok = prog.home(name) in (PIN, UNPIN, UNPROTECTED)
+                    r.instance("Guard literal in %s" % prog.home(name), ok)
                     if not ok:
                         r.violate(name, "guard-literal", "constructs a Guard outside pin/unpin/unprotected (not paired with "
                                   "guard_count)", b.loc(bi))
@@ -881,7 +888,7 @@ def rule_no_forget(ctx):
             adt = ta[0].get("adt") if ta else None
             control += 1
             if adt in WATCH:
-                key = (name, nt, adt)
+                key = (prog.home(name), nt, adt)
                 ok = key in EXC
                 r.instance("%s: %s::<%s>%s" % (name, nt, adt, " (exception: %s)" % EXC[key] if ok else ""), ok)
                 if not ok:
